@@ -14,8 +14,9 @@
      node/call_object_dynamic_property.go  SetValue, case *ClassValue   (same three steps)
      node/call_object_property.go          GetValue, case *ClassValue   (read)
      data/type_int.go, type_string.go, type_array.go, type_class.go, type_generic.go  (Is)
-     node/call_object_method.go callMethodParams, node/new.go createInstanceAndCallConstructorWithStmt
-                            (the two unchecked members, for the recorded findings)
+     node/call_object_method.go callMethodParams + node/function.go Parameter.SetValue (T-typed
+                            method parameter), node/new.go createInstanceAndCallConstructorWithStmt
+                            (promoted constructor parameter: unchecked, recorded finding)
 
    The class *declaration* (ClassStatement.Properties) is one cell shared by every
    instantiation: Clone copies the pointer and swaps only GenericMap.  The state below keeps
@@ -182,13 +183,25 @@ Definition accepts (st : state) (i : nat) (p : string) (v : value) : option bool
 End WithGetProperty.
 
 (* ---- the other two members that can be declared with a type parameter.
-   `T $x` on a method: node/call_object_method.go callMethodParams binds a *Parameter with
-   fnCtx.SetVariableValue(varies[index], flatArgs[index]) — Types.Is is never consulted
-   (and data.Generic.Is is `return true` anyway).
+   `T $x` on a method (after fixes dcfa9d9 and 895602f): node/call_object_method.go callMethodParams
+   binds a *Parameter with Parameter.SetValue; node/function.go Parameter.SetValue lets null
+   through, replaces data.Generic{T} by GenericMap[T] of the instantiation the method runs on
+   (left as Generic, whose Is is `return true`, when T is not in the map) and asks Types.Is.
    `public T $v` promoted in the constructor of a generic class:
    node/new.go createInstanceAndCallConstructorWithStmt stores the argument with
-   object.SetProperty(PropertyName, value) — no check either. *)
-Definition method_param_accepts (d : option dty) (m : list (string * cty)) (v : value) : bool := true.
+   object.SetProperty(PropertyName, value) — no check. *)
+Definition method_param_accepts (d : option dty) (m : list (string * cty)) (v : value) : bool :=
+  match d with
+  | None => true
+  | Some d' =>
+      match v with
+      | VNull => true
+      | _ => match d' with
+             | DConc c => cty_is c v
+             | DGen n => match lookup n m with Some c => cty_is c v | None => true end
+             end
+      end
+  end.
 Definition ctor_promoted_accepts (d : option dty) (m : list (string * cty)) (v : value) : bool := true.
 End WithHierarchy.
 
